@@ -13,6 +13,13 @@ FLAVOURS = {
     'plain': {'cxx': _COMMON + ['-O1']},
     'asan': {'cxx': _COMMON + ['-O1', '-fsanitize=address,undefined', '-fno-sanitize-recover=undefined'],
              'ld': ['-fsanitize=address,undefined']},
+    # concurrent harnesses: scheduler runtime (rt/mc.cpp etc., uninstrumented) + harness TU
+    'mc_asan': {'cxx': _COMMON + ['-O1', '-fsanitize=address', '-fno-access-control'],
+                'ld': ['-fsanitize=address', '-ldl', '-Wl,-z,now']},
+    'mc_plain': {'cxx': _COMMON + ['-O1', '-fno-access-control'], 'ld': ['-ldl', '-Wl,-z,now']},
+    # TSan-ABI instrumentation (atomics + memory accesses call into rt/tsan_shim.cpp, NOT libtsan)
+    'mc_tsan': {'cxx': _COMMON + ['-O1', '-fsanitize=thread', '--param', 'tsan-instrument-func-entry-exit=0', '-fno-access-control'],
+                'ld': ['-ldl', '-Wl,-z,now']},
 }
 
 CHECKS = {}
